@@ -9,6 +9,12 @@ MAPP = ['emp1,emp2;era1,emp3,fnd2;goe1,idx4,con3', 'emp1,emp2;era1,con2;era1,fnd
         'emp1,emp2;era1,era2;emp2,emp1,fnd1']
 
 
+# std::string keys (a moved-from key is empty): insertions through get_or_emplace(_lazy) / operator[] that lose their CAS to a neighbour and retry
+SKINDS = ['smap1nc', 'smap2mh', 'smap1mc', 'sset']
+SMAPP = [';goe3,fnd3;emp1,emp2', 'emp5;gol4,con4;emp3,era5', ';idx2,con2;emp1,era1', 'emp2;goe3,idx1;era2,emp2,fnd3', ';gol2,goe1;goe2,gol1;con1,con2']
+SSETP = [';eog3,con3;emp1,emp2', 'emp2;emp3,era2;emp1,con3']
+
+
 def run(ctx):
     build(['hm'])
     q = ctx.quick
@@ -22,6 +28,10 @@ def run(ctx):
                 n += 1
                 if q and r not in ('hp3', 'ebr0') and (n + ctx.seed) % 5 != 0:
                     continue
+                jobs.append('%s/%s;%s' % (kind, r, p))
+    for kind in SKINDS:
+        for r in (['hp3', 'ebr0'] if q else RECL):
+            for p in (SSETP if kind == 'sset' else SMAPP):
                 jobs.append('%s/%s;%s' % (kind, r, p))
     # long single-threaded random sequences (sequential histories are the trivial case of linearizability)
     rnd = random.Random(ctx.seed)
@@ -39,6 +49,6 @@ def run(ctx):
                   'M: TLC explores all interleavings of the HarrisMichael impl spec (find with helping unlink, insert CAS, mark-then-unlink erase) over the '
                   'adversarial abstract reclaimer; T: emplace / emplace_or_get / get_or_emplace(_lazy) / operator[] / erase(key) / erase(iterator) / find / '
                   'contains programs of 2-3 threads over keys 1..5 on the set and on hash maps with 1-2 buckets, memoize_hash on/off, identity and colliding '
-                  'hash, every reclaimer, all schedules up to preemption bound 2/3, plus long single-threaded random sequences; every distinct history is '
+                  'hash, int and std::string keys, every reclaimer, all schedules up to preemption bound 2/3, plus long single-threaded random sequences; every distinct history is '
                   'checked by TLC for linearizability w.r.t. abs/SetMap; non-trivial = overlapping operations',
                   ['sequential consistency at atomic-access granularity', 'map values are 10*key (value integrity = no value of another key)'])
